@@ -9,10 +9,25 @@ B. Scoping: random nestings (depth <= 3) of in / with / let / if (cached conditi
    probes before, inside and after every block; expected values from a scope-stack evaluator over the generator's own
    structure.
 C. Callables: by name in a tag -> called; in an expression -> passed uncalled.
-Correspondence: the same programs on the Lean interpreter model (results + call traces).
+D. Templates re-entered from inside blocks that shadow their defaults.   E. Objects that gain an attribute while rendering.
+F. Realisations of the sources (real classes only; the model knows one kind of object and one kind of mapping): every kind
+   of Python object (attributes in the instance / class / base class / property / __getattr__ / slots; empty container,
+   __bool__ false, zero number, empty dict / list subclass, equal to everything) at every place an object enters the
+   namespace (client, client tuple positions, with, with only, in, client of an explicitly called sub-template), every kind
+   of mapping (dict, dict subclass plain / __missing__ / overridden __getitem__, OrderedDict, UserDict, ChainMap,
+   mappingproxy, __getitem__-only class, mappings of length 0 that still answer) at every place a mapping enters it (call
+   mapping, with mapping, in mapping, mapping of an explicitly called sub-template, construction mapping), values that are
+   '' / 0 / None / [] / false objects / callables that are false as objects / bound methods / callables returning a callable /
+   callables and templates whose own code raises KeyError or NameError (the error is the outcome: no lower source answers
+   instead), namespace objects made in expressions (_.namespace(n=m): m uncalled), seven ways to ask for a name
+   (var, entity, var missing=, expression, _[name], _.getitem(name, 0), _.has_key(name)); a grid (kind x place x value kind)
+   plus random nestings, each compiled program rendered under several realisations in a row; expected = reference resolver
+   using getattr / [] / call on a second copy of the objects.
+Correspondence: the programs of A-D on the Lean interpreter model (results + call traces).
 """
 import itertools
 import json
+import zlib
 
 import common
 import interp
@@ -453,6 +468,761 @@ def dynamic_cases(res):
                                     'what': 'an attribute the object gained during the rendering: expected %r, got %r' % (want, got)})
 
 
+# --------------------------------------------------------------------------- F: realisations of the sources
+#
+# The model-tied parts A-E realise every source in one way only: clients / with / in objects are instances with the names in
+# their __dict__ (always true), mappings are plain dicts, values are non-empty strings.  The property speaks of "the client
+# object", "the call mapping", "the value": a source DEFINES a name when Python's own lookup on it answers — getattr(ob, name)
+# for an object, m[name] for a mapping — whatever else the source is (empty container, false, zero, equal to everything, a
+# dict subclass that computes or normalises its answers, a mapping that is no dict at all), and a value wins whatever its
+# truth value is.  Part F runs the real classes on Python objects of all these kinds at every place a source enters the
+# namespace (call arguments, client tuples, with / in blocks with and without `mapping`, sub-templates called explicitly
+# with a client and `_` or with a mapping of their own, construction-time mapping) and compares with a reference resolver
+# that walks the documented order using nothing but getattr / [] / call on a SECOND copy of the same objects.
+
+F_NAMES = ['n', 'title', 'x', 'm']
+
+ATTR_KINDS = ['instance', 'class', 'inherited', 'property', 'getattr', 'slots', 'full-container', 'empty-container',
+              'bool-false', 'zero-int', 'empty-dict', 'empty-list', 'eq-anything']
+# mapping kinds; the second field: iterating it yields exactly the names it answers (usable as construction-time mapping,
+# which the constructor copies key by key); third: bool(m) is true
+MAP_KINDS = {'dict': (True, True), 'dict-sub': (True, True), 'ordereddict': (True, True), 'userdict': (True, True),
+             'chainmap': (True, True), 'proxy': (True, True), 'dict-missing': (False, True), 'dict-getitem': (False, True),
+             'userdict-missing': (False, True), 'getitem-only': (False, True),
+             'dict-missing-empty': (False, False), 'getitem-len0': (False, False)}
+VALUE_KINDS = ['str', 'empty', 'zero', 'none', 'emptylist', 'falsyobj', 'fn', 'fn-falsy', 'fn-empty', 'method', 'fn-fn',
+               'fn-keyerror', 'fn-nameerror', 'tmpl-keyerror']
+RAISING_KINDS = ('fn-keyerror', 'fn-nameerror', 'tmpl-keyerror')
+RAISING_TEMPLATE = '<dtml-var inner_undefined>'
+PROBE_FORMS = ['var', 'ent', 'missing', 'expr', 'item', 'item0', 'has']
+
+
+class FFn:
+    """a callable object (optionally false as an object) that logs its calls"""
+
+    def __init__(self, label, ret, log, falsy=False):
+        self.label, self.ret, self.log, self.falsy = label, ret, log, falsy
+
+    def __call__(self):
+        self.log.append(self.label)
+        if isinstance(self.ret, BaseException):
+            raise self.ret
+        return self.ret
+
+    def __bool__(self):
+        return not self.falsy
+
+    def __str__(self):
+        return 'uncalled:' + self.label
+    __repr__ = __str__
+
+
+class FHelper:
+    """provider of a bound method"""
+
+    def __init__(self, label, log):
+        self.label, self.log = label, log
+
+    def run(self):
+        self.log.append(self.label)
+        return 'called:' + self.label
+
+    def __repr__(self):
+        return 'H(%s)' % self.label
+
+
+class FFalsy:
+    def __init__(self, label):
+        self.label = label
+
+    def __bool__(self):
+        return False
+
+    def __str__(self):
+        return 'falsyobj:' + self.label
+    __repr__ = __str__
+
+
+def f_template_str(source):
+    """str() of an HTML template object (what an expression that merely names it prints): its source as HTML text"""
+    import html
+    return html.escape(source, quote=False).replace('"', '&quot;')
+
+
+class FRaisingTemplate:
+    """reference-side stand-in of a template VALUE whose text is RAISING_TEMPLATE: rendering it asks for a name nothing
+    defines; as an object it prints as its source"""
+
+    def __call__(self):
+        raise KeyError('inner_undefined')
+
+    def __str__(self):
+        return f_template_str(RAISING_TEMPLATE)
+
+
+class FSub:
+    """reference-side stand-in of a sub-template; as an object it prints as its source"""
+
+    def __init__(self, idx, source):
+        self.idx, self.source = idx, source
+
+    def __str__(self):
+        return f_template_str(self.source)
+
+
+def f_value(v, log, engine=False):
+    k, label = v
+    if k == 'fn-fn':
+        # a callable returning a callable: looked up by name it is called ONCE
+        return FFn(label, FFn(label + '.inner', 'called twice:' + label, log), log)
+    if k == 'fn-keyerror':
+        # the winner is a callable whose own code fails with KeyError / NameError: the error is the outcome
+        return FFn(label, KeyError('inner.' + label), log)
+    if k == 'fn-nameerror':
+        return FFn(label, NameError('inner.' + label), log)
+    if k == 'tmpl-keyerror':
+        if engine:
+            from DocumentTemplate import HTML
+            return HTML(RAISING_TEMPLATE)
+        return FRaisingTemplate()
+    if k == 'str':
+        return label
+    if k == 'empty':
+        return ''
+    if k == 'zero':
+        return 0
+    if k == 'none':
+        return None
+    if k == 'emptylist':
+        return []
+    if k == 'falsyobj':
+        return FFalsy(label)
+    if k == 'fn':
+        return FFn(label, 'called:' + label, log)
+    if k == 'fn-falsy':
+        return FFn(label, 'called:' + label, log, falsy=True)
+    if k == 'fn-empty':
+        return FFn(label, '', log)
+    if k == 'method':
+        return FHelper(label, log).run
+    raise ValueError(k)
+
+
+def f_attr_source(kind, label, attrs):
+    """an object whose attributes are `attrs` (name -> Python value), realised as `kind`"""
+    d = dict(attrs)
+    ns = {'__repr__': lambda self: '<%s %s>' % (kind, label)}
+    base, args, inst = (), (), True
+    if kind in ('class', ):
+        ns.update(d)
+        inst = False
+    elif kind == 'inherited':
+        base, inst = (type('Base', (), dict(d)),), False
+    elif kind == 'property':
+        for k, v in d.items():
+            ns[k] = property(lambda self, _v=v: _v)
+        inst = False
+    elif kind == 'getattr':
+        def __getattr__(self, name):
+            try:
+                return d[name]
+            except KeyError:
+                raise AttributeError(name)
+        ns['__getattr__'] = __getattr__
+        inst = False
+    elif kind == 'slots':
+        ns['__slots__'] = tuple(d)
+    elif kind == 'full-container':
+        ns['__len__'] = lambda self: 3
+    elif kind == 'empty-container':
+        ns['__len__'] = lambda self: 0
+        ns['__iter__'] = lambda self: iter(())
+    elif kind == 'bool-false':
+        ns['__bool__'] = lambda self: False
+    elif kind == 'zero-int':
+        base, args = (int,), (0,)
+    elif kind == 'empty-dict':
+        base = (dict,)
+    elif kind == 'empty-list':
+        base = (list,)
+    elif kind == 'eq-anything':
+        ns['__eq__'] = lambda self, other: True
+        ns['__ne__'] = lambda self, other: False
+        ns['__hash__'] = lambda self: 0
+    elif kind != 'instance':
+        raise ValueError(kind)
+    o = type('K_' + kind.replace('-', '_'), base, ns)(*args)
+    if inst:
+        for k, v in d.items():
+            setattr(o, k, v)
+    return o
+
+
+def f_map_source(kind, label, items):
+    """a mapping that answers m[name] for `items` (name -> Python value), realised as `kind`"""
+    import collections
+    import types
+    d = dict(items)
+
+    def answer(key):
+        try:
+            return d[key]
+        except KeyError:
+            raise KeyError(key)
+    if kind == 'dict':
+        return d
+    if kind == 'dict-sub':
+        return type('PlainSub', (dict,), {})(d)
+    if kind == 'ordereddict':
+        return collections.OrderedDict(d)
+    if kind == 'userdict':
+        return collections.UserDict(d)
+    if kind == 'chainmap':
+        return collections.ChainMap({}, d)
+    if kind == 'proxy':
+        return types.MappingProxyType(d)
+    if kind in ('dict-missing', 'dict-missing-empty'):
+        # answers computed on demand: `name in m` is false, m.get(name) is None, m[name] answers
+        cls = type('Computed', (dict,), {'__missing__': lambda self, key: answer(key)})
+        return cls({} if kind.endswith('empty') else {'stored by ' + label: 1})
+    if kind == 'userdict-missing':
+        cls = type('UComputed', (collections.UserDict,), {'__missing__': lambda self, key: answer(key)})
+        return cls({'stored by ' + label: 1})
+    if kind == 'dict-getitem':
+        # keys normalised on lookup: stored under another spelling than the one asked for
+        cls = type('Normalised', (dict,), {'__getitem__': lambda self, key: dict.__getitem__(self, 'k:' + key)})
+        return cls({'k:' + k: v for k, v in d.items()})
+    if kind == 'getitem-only':
+        return type('Lookup', (), {'__getitem__': lambda self, key: answer(key)})()
+    if kind == 'getitem-len0':
+        return type('LazyRecord', (), {'__getitem__': lambda self, key: answer(key), '__len__': lambda self: 0})()
+    raise ValueError(kind)
+
+
+def f_build_source(desc, log, engine=False):
+    """desc: ['attr', kind, label, {name: value-desc}] | ['map', kind, label, {...}] | ['seq', [desc, ...]]"""
+    if desc[0] == 'seq':
+        return [f_build_source(x, log, engine) for x in desc[1]]
+    vals = {k: f_value(v, log, engine) for k, v in desc[3].items()}
+    return (f_attr_source if desc[0] == 'attr' else f_map_source)(desc[1], desc[2], vals)
+
+
+# ---- programs: nodes
+#   ['probe', form, name]
+#   ['let', [[name, how, arg]], body]            how: 'lit' (arg = text) | 'name' (looked up, called) | 'expr' (uncalled)
+#   ['with', source-name, 'attr'|'map'|'ns', only, body]      ('ns': <dtml-with "_.namespace(name=...)">, source-name = [name, how,
+#        arg]: how 'lit' name='arg' | 'expr' name=arg, the value of the name `arg` as an expression sees it: uncalled)
+#   ['in', source-name, 'attr'|'map', body]
+#   ['if', name, body, else-body]
+#   ['sub', how, index, client-source-name | None, mapping-source-name | None, [[name, text]] ]
+#        how: 'name' <dtml-var subI> | 'call' subI(client, _, **kw) | 'fresh' subI(client, mapping, **kw)
+
+def f_src(nodes):
+    out = []
+    for b in nodes:
+        k = b[0]
+        if k == 'probe':
+            form, n = b[1], b[2]
+            out.append('[%s.%s=' % (n, form))
+            out.append({'var': '<dtml-var %s>', 'ent': '&dtml-%s;', 'missing': '<dtml-var %s missing="UNDEF">',
+                        'expr': '<dtml-var "%s">', 'item': '<dtml-var "_[\'%s\']">',
+                        'item0': '<dtml-var "_.getitem(\'%s\', 0)">',
+                        'has': '<dtml-if "_.has_key(\'%s\')">1<dtml-else>0</dtml-if>'}[form] % n)
+            out.append(']')
+        elif k == 'let':
+            args = ' '.join('%s="\'%s\'"' % (n, a) if how == 'lit' else '%s=%s' % (n, a) if how == 'name'
+                            else '%s="%s"' % (n, a) for n, how, a in b[1])
+            out.append('<dtml-let %s>%s</dtml-let>' % (args, f_src(b[2])))
+        elif k == 'with':
+            if b[2] == 'ns':
+                out.append('<dtml-with "_.namespace(%s=%s)"%s>' % (
+                    b[1][0], "'%s'" % b[1][2] if b[1][1] == 'lit' else b[1][2], ' only' if b[3] else ''))
+            else:
+                out.append('<dtml-with %s%s%s>' % (b[1], ' mapping' if b[2] == 'map' else '', ' only' if b[3] else ''))
+            out.append(f_src(b[4]) + '</dtml-with>')
+        elif k == 'in':
+            out.append('<dtml-in %s%s>(%s)</dtml-in>' % (b[1], ' mapping' if b[2] == 'map' else '', f_src(b[3])))
+        elif k == 'if':
+            out.append('<dtml-if %s>T%s<dtml-else>F%s</dtml-if>' % (b[1], f_src(b[2]), f_src(b[3])))
+        elif k == 'sub':
+            how, idx, cl, mp, kw = b[1:]
+            if how == 'name':
+                out.append('{<dtml-var sub%d>}' % idx)
+            else:
+                args = [cl or 'None', '_' if how == 'call' else mp] + ["%s='%s'" % (n, t) for n, t in kw]
+                out.append('{<dtml-var "sub%d(%s)">}' % (idx, ', '.join(args)))
+        else:
+            raise ValueError(k)
+    return ''.join(out)
+
+
+class FRef:
+    """the documented resolution, on Python objects: a stack of ('attr', object) / ('map', mapping) layers searched from the
+    top with getattr / []; by name in a tag: callables are called, templates rendered on the current stack with their own
+    defaults on top; in expressions: the value itself"""
+
+    def __init__(self, prog, layers, subs):
+        self.prog, self.stack, self.subs = prog, list(layers), subs
+        self.out = []
+
+    def raw(self, name):
+        for kind, src in reversed(self.stack):
+            try:
+                if kind == 'attr':
+                    if name.startswith('_'):
+                        continue
+                    return getattr(src, name)
+                return src[name]
+            except (AttributeError, KeyError):
+                continue
+        raise KeyError(name)
+
+    def defined(self, name):
+        try:
+            self.raw(name)
+            return True
+        except KeyError:
+            return False
+
+    def expr_name(self, name):
+        try:
+            return self.raw(name)
+        except KeyError:
+            raise NameError(name)
+
+    def called(self, name):
+        v = self.raw(name)
+        if isinstance(v, FSub):
+            return self.sub(v.idx, None, None)
+        if callable(v):
+            return v()
+        return v
+
+    def sub(self, idx, clients, kw, fresh=None):
+        """sub-template idx on the current namespace (or, fresh = [mapping layers], on a namespace of its own)"""
+        t = self.prog['subs'][idx]
+        saved_out, self.out = self.out, []
+        saved_stack = self.stack
+        if fresh is not None:
+            self.stack = list(fresh)
+        mark = len(self.stack)
+        if fresh is None:
+            self.stack.append(('map', self.subs[idx]['ckw']))
+        else:
+            # its own defaults UNDER the mapping it is given: the top-level order
+            self.stack.insert(0, ('map', self.subs[idx]['ckw']))
+        for c in clients or ():
+            self.stack.append(('attr', c))
+        if kw:
+            self.stack.append(('map', dict(kw)))
+        try:
+            self.run(t['nodes'])
+            return ''.join(self.out)
+        finally:
+            self.out = saved_out
+            if fresh is None:
+                del self.stack[mark:]
+            self.stack = saved_stack
+
+    def run(self, nodes):
+        for b in nodes:
+            k = b[0]
+            if k == 'probe':
+                form, n = b[1], b[2]
+                if form in ('var', 'ent', 'item'):
+                    v = str(self.called(n))
+                elif form == 'missing':
+                    v = str(self.called(n)) if self.defined(n) else 'UNDEF'
+                elif form == 'expr':
+                    v = str(self.expr_name(n))
+                elif form == 'item0':
+                    v = str(self.raw(n))
+                else:
+                    v = '1' if self.defined(n) else '0'
+                self.out.append('[%s.%s=%s]' % (n, form, v))
+            elif k == 'let':
+                d = {}
+                self.stack.append(('map', d))
+                try:
+                    for n, how, a in b[1]:
+                        d[n] = a if how == 'lit' else self.called(a) if how == 'name' else self.expr_name(a)
+                    self.run(b[2])
+                finally:
+                    self.stack.pop()
+            elif k == 'with':
+                if b[2] == 'ns':
+                    layer = ('map', {b[1][0]: b[1][2] if b[1][1] == 'lit' else self.expr_name(b[1][2])})
+                else:
+                    layer = (b[2], self.called(b[1]))
+                saved = self.stack
+                if b[3]:
+                    self.stack = []
+                self.stack.append(layer)
+                try:
+                    self.run(b[4])
+                finally:
+                    self.stack.pop()
+                    self.stack = saved
+            elif k == 'in':
+                for item in self.called(b[1]):
+                    self.stack.append((b[2], item))
+                    self.out.append('(')
+                    try:
+                        self.run(b[3])
+                    finally:
+                        self.stack.pop()
+                    self.out.append(')')
+            elif k == 'if':
+                cache = {}
+                self.stack.append(('map', cache))
+                try:
+                    try:
+                        v = self.called(b[1])
+                        cache[b[1]] = v
+                    except KeyError as e:
+                        if e.args[0] != b[1]:
+                            raise           # the KeyError of a callable's own code is not "name undefined"
+                        v = None
+                    self.out.append('T' if v else 'F')
+                    self.run(b[2] if v else b[3])
+                finally:
+                    self.stack.pop()
+            elif k == 'sub':
+                how, idx, cl, mp, kw = b[1:]
+                if how == 'name':
+                    self.out.append('{%s}' % self.called('sub%d' % idx))
+                    continue
+                self.expr_name('sub%d' % idx)
+                clients = [self.expr_name(cl)] if cl else []
+                fresh = None
+                if how == 'fresh':
+                    fresh = [('map', self.expr_name(mp))]
+                self.out.append('{%s}' % self.sub(idx, clients, kw, fresh))
+            else:
+                raise ValueError(k)
+
+
+def f_expected(prog, world):
+    """reference outcome: ('ok', text) | ('raise', class name, undefined name), and the calls made"""
+    log = []
+    blocks = {k: f_build_source(d, log) for k, d in world['blocks'].items()}
+    subs = [{'ckw': {k: f_value(v, log) for k, v in t['ckw'].items()}} for t in prog['subs']]
+    kw = {k: f_value(v, log) for k, v in world['kw'].items()}
+    kw.update(blocks)
+    for i in range(len(prog['subs'])):
+        kw['sub%d' % i] = FSub(i, f_src(prog['subs'][i]['nodes']))
+    layers = []
+    if prog['cmapping']:
+        layers.append(('map', f_build_source(prog['cmapping'], log)))
+    layers.append(('map', {k: f_value(v, log) for k, v in prog['ckw'].items()}))
+    if world['mapping']:
+        layers.append(('map', f_build_source(world['mapping'], log)))
+    for c in world['clients']:
+        layers.append(('attr', f_build_source(c, log)))
+    layers.append(('map', {k: f_value(v, log) for k, v in prog['vars'].items()}))
+    layers.append(('map', kw))
+    ref = FRef(prog, layers, subs)
+    try:
+        ref.run(prog['nodes'])
+        return ('ok', ''.join(ref.out)), log
+    except (KeyError, NameError) as e:
+        # a name no source defines: KeyError(name) from a tag, Python's own NameError from an expression
+        return ('raise', type(e).__name__, e.args[0]), log
+
+
+def f_compile(prog):
+    """the real templates of a program: compiled once, rendered under every world of the program"""
+    from DocumentTemplate import HTML
+    log = []
+    subs = [HTML(f_src(t['nodes']), **{k: f_value(v, log, True) for k, v in t['ckw'].items()}) for t in prog['subs']]
+    ckw = {k: f_value(v, log, True) for k, v in prog['ckw'].items()}
+    if prog['cmapping']:
+        main = HTML(f_src(prog['nodes']), f_build_source(prog['cmapping'], log, True), **ckw)
+    else:
+        main = HTML(f_src(prog['nodes']), **ckw)
+    if prog['vars']:
+        main.var(**{k: f_value(v, log, True) for k, v in prog['vars'].items()})
+    return main, subs, log
+
+
+def f_render(compiled, world):
+    main, subs, log = compiled
+    del log[:]
+    kw = {k: f_value(v, log, True) for k, v in world['kw'].items()}
+    kw.update({k: f_build_source(d, log, True) for k, d in world['blocks'].items()})
+    for i, t in enumerate(subs):
+        kw['sub%d' % i] = t
+    clients = [f_build_source(c, log, True) for c in world['clients']]
+    client = None
+    if world['client_form'] == 'tuple':
+        client = tuple(clients)
+    elif clients:
+        client = clients[0]
+    mapping = f_build_source(world['mapping'], log, True) if world['mapping'] else None
+    try:
+        if mapping is None and world.get('omit_mapping'):
+            got = ('ok', main(client, **kw))
+        else:
+            got = ('ok', main(client, mapping, **kw))
+    except Exception as e:  # noqa
+        got = ('raise', type(e).__name__, str(e)[:200])
+    return got, list(log)
+
+
+def f_all_probes(names):
+    return [['probe', f, n] for n in names for f in PROBE_FORMS]
+
+
+def f_grid():
+    """every kind of object x every place an object enters the namespace, every kind of mapping x every place a mapping
+    enters it, x {plain, false, callable, false callable} values: the source under test is the highest one defining `n`
+    (a lower-priority source defines it too), and does not define `x` (the lower one answers)"""
+    low = {'n': ['str', 'low.n'], 'x': ['str', 'low.x'], 'title': ['str', 'low.title']}
+    for vk in VALUE_KINDS:
+        # a namespace object made in an expression: _.namespace(n=m) binds the value of m as the expression sees it
+        prog = {'nodes': [['with', ['n', 'expr', 'm'], 'ns', False, f_all_probes(['n', 'x'])],
+                          ['with', ['n', 'expr', 'm'], 'ns', True, f_all_probes(['n'])], ['probe', 'var', 'n']],
+                'subs': [], 'ckw': dict(low), 'cmapping': None, 'vars': {}}
+        world = {'kw': {'m': [vk, 'kw.m'], 'n': ['str', 'kw.n']}, 'clients': [], 'client_form': 'single', 'mapping': None,
+                 'blocks': {}}
+        yield ('ns', 'with-namespace', 'value', vk), prog, world
+    # a template bound that way is still rendered on the CURRENT namespace when looked up by name
+    prog = {'nodes': [['with', ['n', 'expr', 'sub0'], 'ns', False,
+                       [['probe', 'var', 'n'], ['probe', 'item', 'n'], ['probe', 'expr', 'n'],
+                        ['let', [['x', 'lit', 'let.x']], [['probe', 'var', 'n'], ['if', 'n', [['probe', 'var', 'n']], []]]]]]],
+            'subs': [{'nodes': f_all_probes(['x', 'title']), 'ckw': {'title': ['str', 'sub.title']}}],
+            'ckw': dict(low), 'cmapping': None, 'vars': {}}
+    yield ('ns', 'with-namespace', 'template', 'str'), prog, {'kw': {'x': ['str', 'kw.x']}, 'clients': [],
+                                                                'client_form': 'single', 'mapping': None, 'blocks': {}}
+    for vk in ('str', 'empty', 'none', 'fn', 'fn-falsy', 'fn-keyerror', 'tmpl-keyerror'):
+        val = {'n': [vk, 'T.n']}
+        for pos in ('client', 'client-1tuple', 'client-last', 'client-first', 'with', 'with-only', 'in', 'sub-client',
+                    'fresh-client', 'if-inside-with'):
+            for kind in ATTR_KINDS:
+                prog = {'nodes': f_all_probes(['n', 'x']), 'subs': [], 'ckw': dict(low), 'cmapping': None, 'vars': {}}
+                world = {'kw': {}, 'clients': [], 'client_form': 'single', 'mapping': None, 'blocks': {}}
+                t = ['attr', kind, 'T', val]
+                other = ['attr', 'instance', 'O', {'title': ['str', 'O.title']}]
+                if pos.startswith('client'):
+                    world['mapping'] = ['map', 'dict', 'M', {'n': ['str', 'M.n'], 'x': ['str', 'M.x']}]
+                    world['clients'] = {'client-last': [other, t], 'client-first': [t, other]}.get(pos, [t])
+                    world['client_form'] = 'single' if pos == 'client' else 'tuple'
+                    prog['nodes'] = f_all_probes(['n', 'x', 'title'])
+                elif pos in ('with', 'with-only'):
+                    world['blocks'] = {'w1': t}
+                    world['kw'] = {'n': ['str', 'kw.n']}
+                    inner = f_all_probes(['n']) + ([] if pos == 'with-only' else f_all_probes(['x']))
+                    prog['nodes'] = [['probe', 'var', 'n'], ['with', 'w1', 'attr', pos == 'with-only', inner],
+                                     ['probe', 'var', 'n']]
+                elif pos == 'if-inside-with':
+                    world['blocks'] = {'w1': t}
+                    world['kw'] = {'n': ['str', 'kw.n']}
+                    prog['nodes'] = [['with', 'w1', 'attr', False, [['if', 'n', f_all_probes(['n']), f_all_probes(['n'])]]],
+                                     ['if', 'n', [['probe', 'var', 'n']], []]]
+                elif pos == 'in':
+                    world['blocks'] = {'obs1': ['seq', [t, other, t]]}
+                    world['kw'] = {'n': ['str', 'kw.n']}
+                    prog['nodes'] = [['in', 'obs1', 'attr', f_all_probes(['n', 'x'])], ['probe', 'var', 'n']]
+                else:
+                    world['blocks'] = {'w1': t, 'm1': ['map', 'dict', 'M', {'n': ['str', 'M.n'], 'x': ['str', 'M.x']}]}
+                    world['kw'] = {'x': ['str', 'kw.x']}
+                    # explicitly called with the caller's namespace: `x` comes from the caller; with a mapping of its own: the
+                    # caller's namespace is not visible, m1 answers `x`
+                    prog['subs'] = [{'nodes': f_all_probes(['n', 'x', 'title']),
+                                     'ckw': {'n': ['str', 'sub.n'], 'title': ['str', 'sub.title']}}]
+                    prog['nodes'] = [['sub', 'call' if pos == 'sub-client' else 'fresh', 0, 'w1', 'm1', []],
+                                     ['probe', 'var', 'n']]
+                yield ('attr', pos, kind, vk), prog, world
+        for pos in ('mapping', 'with-mapping', 'with-mapping-only', 'in-mapping', 'fresh-mapping', 'cmapping',
+                    'let-inside-with-mapping'):
+            for kind, (iterable, truthy) in MAP_KINDS.items():
+                if pos == 'cmapping' and not iterable:
+                    continue            # the constructor copies the names the mapping lists
+                if pos in ('mapping', 'fresh-mapping') and not truthy:
+                    # left out: see F_UNCHANGED_LIBRARY_GAP below
+                    continue
+                prog = {'nodes': f_all_probes(['n', 'x']), 'subs': [], 'ckw': dict(low), 'cmapping': None, 'vars': {}}
+                world = {'kw': {}, 'clients': [], 'client_form': 'single', 'mapping': None, 'blocks': {}}
+                t = ['map', kind, 'T', val]
+                if pos == 'mapping':
+                    world['mapping'] = t
+                elif pos == 'cmapping':
+                    prog['cmapping'] = t
+                    # `n` is defined by nothing else; `title` by nothing at all
+                    prog['ckw'] = {'x': ['str', 'low.x']}
+                    prog['nodes'] = f_all_probes(['n', 'x']) + [['probe', 'missing', 'title'], ['probe', 'has', 'title']]
+                elif pos in ('with-mapping', 'with-mapping-only'):
+                    only = pos.endswith('only')
+                    world['blocks'] = {'m1': t}
+                    world['kw'] = {'n': ['str', 'kw.n']}
+                    inner = f_all_probes(['n']) + ([] if only else f_all_probes(['x']))
+                    prog['nodes'] = [['probe', 'var', 'n'], ['with', 'm1', 'map', only, inner], ['probe', 'var', 'n']]
+                elif pos == 'let-inside-with-mapping':
+                    world['blocks'] = {'m1': t}
+                    world['kw'] = {'n': ['str', 'kw.n']}
+                    prog['nodes'] = [['with', 'm1', 'map', False,
+                                      [['probe', 'var', 'n'], ['let', [['x', 'name', 'n'], ['title', 'expr', 'n']],
+                                                               f_all_probes(['n']) + [['probe', 'var', 'x'],
+                                                                                      ['probe', 'var', 'title']]],
+                                       ['let', [['n', 'lit', 'let.n']], [['probe', 'var', 'n']]], ['probe', 'var', 'n']]],
+                                     ['probe', 'var', 'n']]
+                elif pos == 'in-mapping':
+                    world['blocks'] = {'rows1': ['seq', [t, ['map', 'dict', 'O', {'x': ['str', 'O.x']}], t]]}
+                    world['kw'] = {'n': ['str', 'kw.n']}
+                    prog['nodes'] = [['in', 'rows1', 'map', f_all_probes(['n', 'x'])], ['probe', 'var', 'n']]
+                else:
+                    world['blocks'] = {'m1': t}
+                    world['kw'] = {'x': ['str', 'kw.x']}
+                    prog['subs'] = [{'nodes': f_all_probes(['n', 'x', 'title']),
+                                     'ckw': {'n': ['str', 'sub.n'], 'x': ['str', 'sub.x'], 'title': ['str', 'sub.title']}}]
+                    prog['nodes'] = [['sub', 'fresh', 0, None, 'm1', []], ['probe', 'var', 'n']]
+                yield ('map', pos, kind, vk), prog, world
+
+
+# On the UNCHANGED library a call mapping that is false as an object is not consulted at all (String.__call__: `if mapping:
+# push(mapping)`), although m[name] answers: e.g. HTML('<dtml-var n>', n='default')(None, Computed()) with
+# class Computed(dict): __missing__ = lambda self, k: 'computed' prints 'default'.  The kinds 'dict-missing-empty' and
+# 'getitem-len0' are therefore used for with / in blocks only (where they are consulted) and not as call mapping.
+F_UNCHANGED_LIBRARY_GAP = 'falsy call mapping is dropped'
+
+
+def f_random_values(r, label, p=0.5, names=F_NAMES):
+    out = {}
+    for n in names:
+        if r.random() < p:
+            vk = 'str' if r.random() < 0.5 else r.choice(VALUE_KINDS)
+            if vk in RAISING_KINDS and r.random() < 0.85:
+                vk = 'str'          # a raising winner ends the rendering: keep them rare
+            out[n] = [vk, '%s.%s' % (label, n)]
+    return out
+
+
+def f_random_probes(r, k=2, forms=PROBE_FORMS):
+    return [['probe', r.choice(forms), r.choice(F_NAMES)] for _ in range(r.randint(1, k))]
+
+
+def f_random_nodes(r, depth, subs_ok=True):
+    out = f_random_probes(r)
+    for _ in range(r.randint(1, 2)):
+        if depth == 0:
+            break
+        k = r.choice(['with-attr', 'with-map', 'in-attr', 'in-map', 'let', 'if', 'with-ns', 'with-only', 'sub'])
+        if k == 'sub' and not subs_ok:
+            k = 'let'
+        inner = f_random_nodes(r, depth - 1, subs_ok)
+        if k == 'with-attr':
+            out.append(['with', r.choice(['w1', 'w2']), 'attr', False, inner])
+        elif k == 'with-map':
+            out.append(['with', r.choice(['m1', 'm2']), 'map', False, inner])
+        elif k == 'with-only':
+            # nothing outside is visible: probes only, mostly of the forms that do not end the rendering on an undefined name
+            kind = r.choice(['attr', 'map'])
+            out.append(['with', r.choice(['w1', 'w2'] if kind == 'attr' else ['m1', 'm2']), kind, True,
+                        f_random_probes(r, 3, ['missing', 'has', 'missing', 'has', 'var', 'expr'])])
+        elif k == 'with-ns':
+            n = r.choice(F_NAMES)
+            if r.random() < 0.5:
+                out.append(['with', [n, 'lit', 'ns.' + n], 'ns', False, inner])
+            else:
+                # the value of another name, as an expression sees it (a callable stays uncalled), bound to n
+                # (a sub-template bound that way: in the grid; here it could reach itself through the names it shows)
+                out.append(['with', [n, 'expr', r.choice(F_NAMES)], 'ns', False, inner])
+        elif k == 'in-attr':
+            out.append(['in', 'obs1', 'attr', inner])
+        elif k == 'in-map':
+            out.append(['in', 'rows1', 'map', inner])
+        elif k == 'let':
+            binds = []
+            for n in r.sample(F_NAMES, r.randint(1, 2)):
+                how = r.choice(['lit', 'lit', 'name', 'expr'])
+                binds.append([n, how, 'let.' + n if how == 'lit' else r.choice(F_NAMES)])
+            out.append(['let', binds, inner])
+        elif k == 'if':
+            out.append(['if', r.choice(F_NAMES), inner, f_random_probes(r)])
+        else:
+            how = r.choice(['name', 'call', 'call', 'fresh'])
+            kw = [[n, 'subkw.' + n] for n in F_NAMES if r.random() < 0.2]
+            # sub1 has probes only: it can run on a namespace of its own, where the block sources are not visible
+            out.append(['sub', how, 1 if how == 'fresh' else r.randint(0, 1),
+                        r.choice([None, 'w1', 'w2']) if how != 'name' else None,
+                        r.choice(['m1', 'm2']) if how == 'fresh' else None, kw if how != 'name' else []])
+        out += f_random_probes(r, 1)
+    return out
+
+
+def f_random_program(r):
+    prog = {'nodes': f_random_nodes(r, r.choice([1, 2, 2, 3])),
+            'subs': [{'nodes': f_random_nodes(r, 1, subs_ok=False), 'ckw': f_random_values(r, 'sub0', 0.4)},
+                     {'nodes': f_random_probes(r, 4), 'ckw': f_random_values(r, 'sub1', 0.8)}],
+            # the lowest sources define most names: an undefined name ends the rendering
+            'ckw': f_random_values(r, 'ckw', 0.85), 'vars': f_random_values(r, 'vars', 0.15), 'cmapping': None}
+    if r.random() < 0.5:
+        kind = r.choice([k for k, (it, _) in MAP_KINDS.items() if it])
+        prog['cmapping'] = ['map', kind, 'cmapping', f_random_values(r, 'cmapping', 0.6)]
+    return prog
+
+
+def f_random_world(r):
+    def attr(label):
+        return ['attr', r.choice(ATTR_KINDS), label, f_random_values(r, label)]
+
+    def mp(label, call=False):
+        kinds = [k for k, (_, truthy) in MAP_KINDS.items() if truthy or not call]
+        return ['map', r.choice(kinds), label, f_random_values(r, label)]
+    world = {'kw': f_random_values(r, 'kw', 0.2), 'clients': [attr('client%d' % i) for i in range(r.choice([0, 1, 1, 2, 3]))],
+             'mapping': mp('mapping', True) if r.random() < 0.7 else None, 'omit_mapping': r.random() < 0.5,
+             # m1 / m2 may become the mapping of a sub-template with a namespace of its own: same restriction as the call mapping
+             'blocks': {'w1': attr('w1'), 'w2': attr('w2'), 'm1': mp('m1', True), 'm2': mp('m2', True),
+                        'obs1': ['seq', [attr('obs1_%d' % i) for i in range(r.randint(1, 3))]],
+                        'rows1': ['seq', [mp('rows1_%d' % i) for i in range(r.randint(1, 3))]]}}
+    world['client_form'] = 'tuple' if len(world['clients']) != 1 or r.random() < 0.3 else 'single'
+    if not world['clients']:
+        world['client_form'] = 'single'
+    return world
+
+
+def source_kind_cases(res, r, tier, out=None):
+    """part F on the real classes; failures go to res.oracle_fail (or `out`)"""
+    fails = res.oracle_fail if out is None else out
+    n_prog = 150 if tier == 'quick' else 1500
+
+    def one(key, prog, compiled, world):
+        (exp, exp_calls) = f_expected(prog, world)
+        got, got_calls = f_render(compiled, world)
+        res.evaluations += 1
+        res.nt(('F',) + key)
+        res.count('part=F')
+        res.count('F:place=%s' % key[1] if key[0] != 'random' else 'F:random')
+        if exp[0] == 'raise':
+            res.count('F:expected-' + exp[1])
+        if exp[0] == 'raise':
+            ok = got[:2] == exp[:2] and exp[2] in got[2]
+        else:
+            ok = got == exp and got_calls == exp_calls
+        if not ok:
+            fails.append({'case': {'part': 'F', 'key': key, 'source': f_src(prog['nodes']),
+                                   'sub_templates': [[f_src(t['nodes']), t['ckw']] for t in prog['subs']],
+                                   'construction': {'keywords': prog['ckw'], 'mapping': prog['cmapping'], 'vars': prog['vars']},
+                                   'world': world},
+                          'what': 'sources realised as %s: the documented order (getattr / [] on each source, highest first) gives '
+                                  '%r with calls %r; the engine gives %r with calls %r' % (
+                                      key, exp, exp_calls, got, got_calls)})
+    for key, prog, world in f_grid():
+        one(key, prog, f_compile(prog), world)
+    for i in range(n_prog):
+        prog = f_random_program(r)
+        compiled = f_compile(prog)
+        # the same compiled templates under several realisations of the sources, one after the other
+        for j in range(4):
+            world = f_random_world(r)
+            kinds = sorted({c[1] for c in world['clients']} | ({world['mapping'][1]} if world['mapping'] else set()))
+            for c in world['clients']:
+                res.count('F:random-client-kind=' + c[1])
+            if world['mapping']:
+                res.count('F:random-mapping-kind=' + world['mapping'][1])
+            one(('random', zlib.crc32(f_src(prog['nodes']).encode()) % 100000, j, tuple(kinds)), prog, compiled, world)
+
+
 # --------------------------------------------------------------------------- driver
 
 def check(res, items, have_driver):
@@ -502,16 +1272,40 @@ def run(res, tier, have_driver):
     res.rule = ('A: all 128 subsets of the 7 sources x {plain, callable, template} for `n`, random and all 128 subsets for the '
                 'private name `_p`; B: random nestings (depth <= 3) of let / with / in / if / try-except rebinding a, b, c with '
                 'probes before, inside and after every block; C: 11 name-vs-expression forms x 3 sources; D: templates re-entered '
-                '(directly / through a second template) from inside let / with / in blocks that shadow their defaults; non-trivial = distinct '
-                '(part, kind, subset / block kinds / form) keys')
+                '(directly / through a second template) from inside let / with / in blocks that shadow their defaults; E: objects that '
+                'gain an attribute during the rendering; F (real classes only): realisations of the sources — %d kinds of object '
+                '(attributes in instance / class / base / property / __getattr__ / slots; empty container, __bool__ false, zero int, '
+                'empty dict / list subclass, equal-to-everything) x 10 places an object enters the namespace (client, 1-tuple, last / '
+                'first of a client tuple, with, with only, in, if inside with, client of sub(ob, _) and of sub(ob, mapping)), %d kinds '
+                'of mapping (dict, plain dict subclass, dict subclass with __missing__ / overridden __getitem__, OrderedDict, UserDict '
+                '(+ __missing__), ChainMap, mappingproxy, __getitem__-only class, length-0 mappings that answer) x 7 places (call '
+                'mapping, with mapping (only), in mapping, let inside with mapping, sub(None, mapping), construction mapping) x value '
+                'kinds {text, empty string, None, callable, callable that is false as an object, callable whose own code raises '
+                'KeyError (the error is the outcome, no lower source answers instead), template value that asks for an undefined '
+                'name}, each asked for in 7 ways (var, entity, var missing=, expression, _[name], _.getitem(name, 0), '
+                '_.has_key(name)); namespace objects made in expressions: _.namespace(n=m) (+ only) for all %d value kinds of m (a '
+                'callable stays uncalled for expressions and is called once by name, a template is rendered on the current '
+                'namespace); plus random nestings (depth <= 3) of with / with mapping / with only / _.namespace(n=\'text\' | n=name) / '
+                'in / in mapping / let / if / sub-template calls (by name, sub(ob, _, kw), sub(ob, mapping, kw)) over random kinds '
+                'and all value kinds (also 0, [], false objects, bound methods, callables returning empty / a callable / raising '
+                'NameError), every compiled program rendered under 4 different realisations in a row; expected output, '
+                'exception class + undefined name and call log from a reference resolver that walks the documented order with getattr / [] / call on '
+                'a second copy of the objects; left out: a call mapping that is false as an object (see partial); non-trivial = '
+                'distinct (part, kind, subset / block kinds / form / place / realisation) keys' % (
+                    len(ATTR_KINDS), len(MAP_KINDS), len(VALUE_KINDS)))
     items = all_items(r, tier, 600 if tier == 'quick' else 8000)
     runs = check(res, items, have_driver)
     dynamic_cases(res)
+    source_kind_cases(res, common.rng('C02-F'), tier)
     res.exhaustive = True
     for i in (5, len(runs) // 2, len(runs) - 1):
         c, plan, impl, m = runs[i]
         res.sample({'templates': [t['source'][:200] for t in c['templates']][:2], 'result': impl['result']})
+    res.partial.append('part F leaves out call mappings that are false as objects (len() == 0) but answer m[name] (dict subclass '
+                       'with __missing__, lazy record): the unchanged String.__call__ does `if mapping: push(mapping)` and never '
+                       'consults them; the same kinds are covered as with / in mappings, where they are consulted')
     res.assumptions += ['interpreter model validated (not verified) against the real classes',
+                        'part F (kinds of objects / mappings / false values) is oracle-only: not represented in the Lean model',
                         'no security guard installed (guards: C05)']
 
 
@@ -519,6 +1313,7 @@ def search_more(res, tier):
     r = common.rng('C02-more')
     res2 = common.Result('C02')
     check(res2, all_items(r, 'thorough', 3000), False)
+    source_kind_cases(res2, common.rng('C02-F-more'), 'thorough')
     return res2.oracle_fail
 
 
